@@ -14,7 +14,8 @@ import (
 // extra is an unexported embedded struct type: its exported field is promoted,
 // but jet's per-type field index does not list it (slow reflect path).
 type extra struct {
-	ExtraNote string
+	ExtraNote  string
+	hiddenNote string // unexported and promoted through the embedded struct
 }
 
 // Collide: an outer field and a field of an embedded struct share a name (a legal shape whose
@@ -124,7 +125,7 @@ func (d DataSpec) BuildRoot() *Root {
 		Col:  Collide{Name: "outer", Inner: Inner{Name: "embedded", Only: "only"}},
 		Col2: Collide2{Name: "outer", Inner: Inner{Name: "embedded", Only: "only"}}}
 	for i := 0; i < d.NItems; i++ {
-		it := Item{Name: fmt.Sprintf("it%d.%d", d.Tag, i), N: i + 1, Tags: []string{fmt.Sprintf("tg%d", i)}, M: map[string]string{"mk": fmt.Sprintf("mv%d", i)}, secret: "PRIVATE", extra: extra{ExtraNote: fmt.Sprintf("xn%d", i)}}
+		it := Item{Name: fmt.Sprintf("it%d.%d", d.Tag, i), N: i + 1, Tags: []string{fmt.Sprintf("tg%d", i)}, M: map[string]string{"mk": fmt.Sprintf("mv%d", i)}, secret: "PRIVATE", extra: extra{ExtraNote: fmt.Sprintf("xn%d", i), hiddenNote: "HIDDEN"}}
 		if i == 0 {
 			it.Sub = &Item{Name: "sub", N: 9}
 		}
